@@ -92,8 +92,15 @@ def run_jobs(jobs, njobs, case_timeout, names, verbose=False):
         pr.join(5)
       elif not pr.is_alive():
         pr.join()
-        r = new_result(name)
-        r["harness_errors"].append("case process died without a result (exit code %s)" % pr.exitcode)
+        # the result may have been sent between the poll above and the process ending
+        if pc.poll(0.2):
+          try:
+            r = pc.recv()
+          except EOFError:
+            r = None
+        if r is None:
+          r = new_result(name)
+          r["harness_errors"].append("case process died without a result (exit code %s)" % pr.exitcode)
       elif time.time() - t0 > case_timeout:
         pr.kill()
         pr.join()
